@@ -399,7 +399,20 @@ func genFacts() {
 	rb := vc.fn("VirtualTable.Rollback")
 	f["rollbackRestoresSnapshot"] = leanBool(vc.text(rb.Body) == "{ dbg(\"ROLLBACK\\n\") if c.txStart != nil { c.Tree.Root.Cancel() c.Tree.Root = c.txStart c.txStart = nil } return nil }")
 	cm := vc.fn("VirtualTable.Commit")
-	f["commitKeepsSnapshotOnError"] = leanBool(vc.text(cm.Body) == "{ dbg(\"COMMIT\\n\") c.Tree.Root.SetCreated(time.Now()) _, err := c.Tree.Root.Commit(ctx) if err != nil { return fmt.Errorf(\"commit tree: %w\", err) } c.txStart = nil return nil }")
+	f["commitKeepsSnapshotOnError"] = leanBool(vc.text(cm.Body) == "{ dbg(\"COMMIT\\n\") c.Tree.Root.SetCreated(time.Now()) _, err := c.Tree.Root.Commit(ctx) if err != nil { c.commitFailed = true return fmt.Errorf(\"commit tree: %w\", err) } c.txStart = nil return nil }")
+	// ---- after a failed storage commit the table is read again from the bucket before its next use (C04, C14, C16)
+	{
+		call := func(recv string) string {
+			return recv + ".reopenAfterFailedCommit(ctx) if err != nil { return err } "
+		}
+		f["failedCommitReopens"] = leanBool(
+			strings.Contains(vc.text(cm.Body), "if err != nil { c.commitFailed = true return fmt.Errorf(") &&
+				vc.text(vc.fn("VirtualTable.reopenAfterFailedCommit").Body) == "{ if !c.commitFailed || c.txStart != nil { return nil } verifReopening(c) tree, err := OpenKV(ctx, c.S3Options, \"s3db-rows\") if err != nil { return fmt.Errorf(\"reopen after failed commit: %w\", err) } c.Tree = tree c.commitFailed = false return nil }" &&
+				strings.Contains(vc.text(vc.fn("VirtualTable.Begin").Body), "err = c"+call("")+"c.txStart, err = c.Tree.Root.Clone(ctx)") &&
+				strings.Contains(vc.text(vc.fn("Cursor.Filter").Body), "err := c.t"+call("")+"c.cursor, err = c.t.Tree.Root.Cursor(ctx)") &&
+				strings.Contains(vc.text(vc.fn("Vacuum").Body), "err := table"+call("")+"if table.Tree.Root.IsDirty()") &&
+				strings.Count(vc.text(vc.file), "c.commitFailed = ") == 2)
+	}
 	bg := vc.fn("VirtualTable.Begin")
 	f["beginClonesTree"] = leanBool(strings.Contains(vc.text(bg.Body), "c.txStart, err = c.Tree.Root.Clone(ctx)") && strings.Contains(vc.text(bg.Body), "if c.txStart != nil { return errors.New(\"transaction already in progress\") }"))
 	// ---- connection attributes (C05, C15)
